@@ -659,6 +659,8 @@ pub fn plan_c05(thorough: bool) -> Plan {
         let mk = |seed: &'static str, uni: Vec<&'static str>, cfg: Cfg| move |ops: Vec<Value>, b: usize| case(seed, uni.clone(), &cfg, "proofs", ops, b, true);
         // geometry family with absent neighbours at every page boundary
         cases.extend(enum_commit_histories(1, 4, if thorough { 3 } else { 2 }, &acts, &mk("empty", vec!["NB:U4"], cfg.clone())));
+        // the extremes of the key space and their one-bit neighbours
+        cases.extend(enum_commit_histories(if thorough { 2 } else { 1 }, 6, if thorough { 3 } else { 2 }, &acts, &mk("empty", vec!["EXT", "NB:EXT"], cfg.clone())));
         if buckets >= 32 {
             for seed in ["cl12x19", "cl12x20", "cl18x21"] {
                 let uni: Vec<&'static str> = match seed {
